@@ -342,6 +342,11 @@ def run(ctx, chk):
     chk.rule('flag-reconcile', 'authority and path from different sources: the absolute-path flag is reconciled with the host', floor=2)
     chk.rule('naked-guard', 'reference creation: "." in front of a first segment that is empty or contains ":"; domain-root mode passes '
              'through the guard with the final flag', floor=4)
+    chk.rule('essential-dot', 'normalisation in relative mode drops a "." only after establishing that it is not the current head of '
+             'the path, or that it is the last segment, or that the next segment contains no ":" (else "./a:b" would be re-read with scheme a)',
+             floor=2)
+    from ..dotrules import rule_dot_removal
+    chk.analysed['dot_removal_sites'] = rule_dot_removal(ctx, chk, {'essential-dot': 'essential-dot'})
     chk.rule('list-tail', 'list builders leave pathTail on the last node with next == NULL', floor=4)
     for mod, rules in ((c06, ('ambiguity-guard', 'guard-condition', 'flag-reconcile')), (c10, ('naked-guard',))):
         tmp = Check('tmp', tier=chk.tier)
